@@ -213,6 +213,48 @@ def run_waits(ctx, desc):
             ctx.violation("waiter-not-woken", "the EMCY frame was delivered but the caller waiting in wait() was not woken", case)
         elif status != "returned" or val is None or val.code != code or val is not node.emcy.log[-1]:
             ctx.violation("emcy-wait-nofilter", f"wait() ended {status} with {val!r} after frame {code:#x}", case)
+        # 1b. the frame is being received at the very moment the wait begins (receiver held where it takes the consumer's
+        #     lock until the waiter is parked): it is processed after the wait began, so the waiter is handed it
+        code_b = random_code(rng)
+        status, val = waits.arrival_race(cond, lambda: send(code_b, 3), lambda: node.emcy.wait(None if rnd % 2 else code_b, 40))
+        ctx.count("wait_cases")
+        ctx.case(("wait-arrival-race", rnd % 2))
+        case = {"workload": "waits", "kind": "arrival-race", "code": code_b}
+        if status in ("hung", "never-waited", "receiver-never-arrived"):
+            ctx.inconc(f"emcy.wait arrival race: {status}", case)
+        elif status != "returned" or val is None or val.code != code_b or val.register != 3:
+            ctx.violation("emcy-wait-missed-frame-arriving-as-the-wait-begins", f"a frame processed right after the wait had begun: wait() ended {status} with {val!r}", case)
+        # 1c. application callbacks that take their time must not keep the entry from the waiter: the callback waits (up
+        #     to 15 s) for the waiter to come back
+        import threading as _th
+        came_back = _th.Event()
+        seen_by_cb = {}
+
+        def slow_cb(entry):
+            if "armed" in seen_by_cb:
+                seen_by_cb["waiter_back_before_callback_ended"] = came_back.wait(15.0)
+        node.emcy.add_callback(slow_cb)
+        seen_by_cb["armed"] = True
+
+        def waited():
+            try:
+                return node.emcy.wait(None, 40)
+            finally:
+                came_back.set()
+        code_c = random_code(rng)
+        status, val = waits.run_waiter(waited, cond, lambda: send(code_c, 4))
+        seen_by_cb.pop("armed", None)
+        node.emcy.callbacks.remove(slow_cb)
+        ctx.count("wait_cases")
+        ctx.case(("wait-with-slow-callback",))
+        case = {"workload": "waits", "kind": "slow-callback", "code": code_c}
+        if status in ("hung", "never-waited"):
+            ctx.inconc(f"emcy.wait with a slow callback: {status}", case)
+        elif seen_by_cb.get("waiter_back_before_callback_ended") is False:
+            ctx.violation("emcy-waiter-held-up-by-callbacks", "the entry was logged and the waiter notified, but it could not return while an application "
+                          "callback was still running (15 s)", case)
+        elif status != "returned" or val is None or val.code != code_c:
+            ctx.violation("emcy-wait-nofilter", f"wait() ended {status} with {val!r} after frame {code_c:#x}", case)
         # 2. filter: a non-matching frame first, then the matching one
         for want in (0x0000, rng.choice([0x8130, 0x2310, 0xFF01, 0x00FF])):
             wrong = want ^ 0x0100
